@@ -115,6 +115,17 @@ class C05Envelope(Monitor):
         if not (zmin - REL <= zr <= zmax + REL):
             ctx.violate("zroot-in-zmin-zmax", t, observed=zr, expected={"zmin": zmin, "zmax": zmax})
         zgw = float(f[FX["z_gw"]]) if self.wt == 1 else None
+        if zgw is not None and ctx.spec.get("gw"):
+            # the table depth the USER configured for this date (held / interpolated observations), where the observations cover it
+            try:
+                from .groundwater import reference_zgw
+
+                vals, cov = reference_zgw(ctx.spec["gw"], [pre.date])
+                if bool(cov[0]):
+                    zgw = float(vals[0])
+                    ctx.hit("table_depth_from_the_configured_observations")
+            except Exception:  # noqa: BLE001
+                pass
         if zgw is not None and zgw >= 0:
             ctx.hit("table_present_day")
             if zgw >= zmin and zr > zgw + REL:
